@@ -37,6 +37,28 @@ pub fn run_cli(registry: fn() -> Vec<Box<dyn Check>>, selftest: fn() -> Result<(
             eprintln!("cannot read {path}: {e}");
             exit(2)
         });
+        if let Some(rest) = text.strip_prefix("regression ") {
+            // "regression <ID> <name>": a coded regression case
+            let mut it = rest.split_whitespace();
+            let (id, name) = (it.next().unwrap_or("").to_string(), it.next().unwrap_or("").to_string());
+            let check = find(registry(), &id);
+            for (n, f) in check.regressions() {
+                if n == name {
+                    match catch(f) {
+                        Ok(Ok(())) => {
+                            println!("regression {id}/{name}: property holds on this case");
+                            exit(0);
+                        }
+                        Ok(Err(fl)) => println!("regression failure [{}]: {}", fl.sig, fl.msg),
+                        Err(p) => println!("regression failure [panic]: {p}"),
+                    }
+                    println!("VIOLATION property={id} replay={path}");
+                    exit(1);
+                }
+            }
+            eprintln!("unknown regression {id}/{name}");
+            exit(2);
+        }
         let v: serde_json::Value = serde_json::from_str(&text).unwrap_or_else(|e| {
             eprintln!("bad replay file: {e}");
             exit(2)
@@ -117,26 +139,22 @@ pub fn run_cli(registry: fn() -> Vec<Box<dyn Check>>, selftest: fn() -> Result<(
         exit(2);
     });
     let id = check.id();
-    // regression tier: saved shrunk failures first
+    // regression tier first: confirmed historic failures as plain cases that bypass the generators
     let mut replayed = 0u64;
-    let dir = format!("{VERIF_DIR}/regress/{id}");
-    if let Ok(rd) = std::fs::read_dir(&dir) {
-        let mut files: Vec<_> = rd.filter_map(|e| e.ok()).map(|e| e.path()).filter(|p| p.extension().map(|e| e == "json").unwrap_or(false)).collect();
-        files.sort();
-        for p in files {
-            let v: serde_json::Value = match std::fs::read_to_string(&p).ok().and_then(|t| serde_json::from_str(&t).ok()) {
-                Some(v) => v,
-                None => continue,
-            };
-            replayed += 1;
-            if let Err(f) = replay(check.as_ref(), &v) {
-                if known.matches(id, &f.sig).is_some() {
-                    continue;
-                }
-                println!("regression failure [{}]: {}", f.sig, f.msg);
-                println!("VIOLATION property={id} replay={}", p.display());
-                exit(1);
+    for (name, f) in check.regressions() {
+        replayed += 1;
+        let r = match catch(f) {
+            Ok(r) => r,
+            Err(p) => Err(Fail::new("panic-in-regression", p)),
+        };
+        if let Err(fl) = r {
+            if known.matches(id, &fl.sig).is_some() {
+                continue;
             }
+            let path = format!("{VERIF_DIR}/regress/{id}/{name}.txt");
+            println!("regression failure [{}]: {}", fl.sig, fl.msg);
+            println!("VIOLATION property={id} replay={path}");
+            exit(1);
         }
     }
     let out = drive(check.as_ref(), tier, seed, threads, &known);
